@@ -41,6 +41,10 @@ async fn handler(req: DiameterMessage, dict: Arc<Dictionary>, seen: Arc<Mutex<Ve
     if sid.starts_with("PANIC") {
         panic!("handler panic requested by the scenario");
     }
+    if sid.starts_with("SLOW") {
+        // gives the scenario time to make the peer vanish before its answer is written
+        tokio::time::sleep(Duration::from_millis(250)).await;
+    }
     let mut res = DiameterMessage::new(req.get_command_code(), req.get_application_id(), 0, req.get_hop_by_hop_id(), req.get_end_to_end_id(), dict);
     res.add_avp(263, None, M, UTF8String::new(&sid).into());
     res.add_avp(268, None, M, Unsigned32::new(2001).into());
@@ -66,10 +70,31 @@ fn expected_answer(dict: &Arc<Dictionary>, sid: &str, hop: u32) -> Vec<u8> {
 }
 
 async fn start_server(tls: Option<&str>, dict: Arc<Dictionary>, seen: Arc<Mutex<Vec<String>>>) -> PResult<std::net::SocketAddr> {
+    start_server_opt(tls, dict, seen, false).await
+}
+
+/// `relisten`: listen() is entered, left again (its future is dropped) and entered a second time before any peer connects
+async fn start_server_opt(tls: Option<&str>, dict: Arc<Dictionary>, seen: Arc<Mutex<Vec<String>>>, relisten: bool) -> PResult<std::net::SocketAddr> {
     let cfg = DiameterServerConfig { native_tls: match tls { Some(c) => Some(identity(c)?), None => None } };
     let mut server = DiameterServer::new("127.0.0.1:0", cfg).await.map_err(|e| e.to_string())?;
     let addr = server.verif_local_addr().map_err(|e| e.to_string())?;
     tokio::spawn(async move {
+        if relisten {
+            let d2 = Arc::clone(&dict);
+            let s2 = Arc::clone(&seen);
+            let _ = tokio::time::timeout(
+                Duration::from_millis(40),
+                server.listen(
+                    move |req| {
+                        let d = Arc::clone(&d2);
+                        let s = Arc::clone(&s2);
+                        handler(req, d, s)
+                    },
+                    Arc::clone(&dict),
+                ),
+            )
+            .await;
+        }
         let d2 = Arc::clone(&dict);
         let _ = server
             .listen(
@@ -139,10 +164,14 @@ pub fn tls_cell(st: &State, t: &mut Toks) -> PResult<String> {
     let cert = t.next()?.to_string();
     let host = match t.next()? { "host" => "localhost", "ip" => "127.0.0.1", s => return Err(format!("addr {}", s)) };
     let marker = t.next()?.to_string();
+    let relisten = matches!(t.next(), Ok("relisten"));
     let rt = rt();
     let out = rt.block_on(async move {
         let seen = Arc::new(Mutex::new(Vec::new()));
-        let addr = start_server(if server_tls { Some(cert.as_str()) } else { None }, Arc::clone(&dict), Arc::clone(&seen)).await?;
+        let addr = start_server_opt(if server_tls { Some(cert.as_str()) } else { None }, Arc::clone(&dict), Arc::clone(&seen), relisten).await?;
+        if relisten {
+            tokio::time::sleep(Duration::from_millis(120)).await;
+        }
         let rec = Arc::new(Mutex::new(Vec::new()));
         let port = start_relay(addr, Arc::clone(&rec)).await?;
         let mut client = DiameterClient::new(&format!("{}:{}", host, port), DiameterClientConfig { use_tls: client_tls, verify_cert: verify });
@@ -267,6 +296,17 @@ async fn faulty_peer(addr: std::net::SocketAddr, tls: bool, dict: Arc<Dictionary
                 "zero-length" => { let _ = c.write_all(&[1, 0, 0, 0]).await; }
                 "stall-midframe" => { let r = request(&dict, "stall", 1); let _ = c.write_all(&r[..r.len() / 2]).await; }
                 "handler-panic" => { let _ = c.write_all(&request(&dict, "PANIC-now", 2)).await; }
+                "vanish-before-answer" => {
+                    // a complete request whose answer the (slow) handler is still preparing when the peer resets the connection:
+                    // the server's write of that answer fails
+                    let _ = c.write_all(&request(&dict, "SLOW-vanish", 4)).await;
+                    tokio::time::sleep(Duration::from_millis(80)).await;
+                    match &c {
+                        Conn::Plain(s) => { let _ = s.set_linger(Some(Duration::from_secs(0))); }
+                        Conn::Tls(s) => { let _ = s.get_ref().get_ref().get_ref().set_linger(Some(Duration::from_secs(0))); }
+                    }
+                    return;
+                }
                 "reset-midframe" => {
                     let r = request(&dict, "rst", 3);
                     let _ = c.write_all(&r[..10]).await;
@@ -305,11 +345,16 @@ pub fn scenario(st: &State, t: &mut Toks) -> PResult<String> {
         tokio::time::sleep(Duration::from_millis(seed % 20)).await;
         let hold = Duration::from_secs(30);
         let mut fh = Vec::new();
+        let slow_fault = faults.iter().any(|f| f == "vanish-before-answer");
         for f in faults {
             fh.push(tokio::spawn(faulty_peer(addr, tls, Arc::clone(&dict), f, hold)));
             tokio::time::sleep(Duration::from_millis((seed >> 8) % 10)).await;
         }
         tokio::time::sleep(Duration::from_millis(30 + (seed >> 16) % 30)).await;
+        if slow_fault {
+            // the clients opened afterwards must still be talking when the failed write has happened
+            tokio::time::sleep(Duration::from_millis(450)).await;
+        }
         for i in early..ngood {
             handles.push(tokio::spawn(good_client(addr, tls, Arc::clone(&dict), i, nreq, seed)));
         }
